@@ -525,11 +525,11 @@ DOMNode *DOMDocumentImpl::insertBefore(DOMNode *newChild, DOMNode *refChild)
     if(newChild==0)
         throw DOMException(DOMException::HIERARCHY_REQUEST_ERR,0, getMemoryManager());
 
-    // Only one such child permitted
+    // Only one such child permitted (moving the one we have is fine)
     if(
-        (newChild->getNodeType() == DOMNode::ELEMENT_NODE  && fDocElement!=0)
+        (newChild->getNodeType() == DOMNode::ELEMENT_NODE  && fDocElement!=0 && fDocElement!=newChild)
         ||
-        (newChild->getNodeType() == DOMNode::DOCUMENT_TYPE_NODE  && fDocType!=0)
+        (newChild->getNodeType() == DOMNode::DOCUMENT_TYPE_NODE  && fDocType!=0 && fDocType!=newChild)
         )
         throw DOMException(DOMException::HIERARCHY_REQUEST_ERR,0, getMemoryManager());
 
